@@ -94,9 +94,9 @@ def site_id(fn, call, all_calls):
     return "%s#%d" % (name, k)
 
 
-def check_site(ctx, fn, call, rule, sid, what_callee):
+def check_site(ctx, fn, call, rule, sid, what_callee, dom_cls=None):
     """explore fn with `call` failing; all faulted exits must return non-zero."""
-    dom = Dom(fn, call)
+    dom = (dom_cls or Dom)(fn, call)
     ex = Explorer(fn, dom)
     try:
         ex.run(State())
